@@ -214,12 +214,18 @@ def scan_trusted(woven_dir):
                 counts['assume('] += 1
             # describe with the next non-attribute line
             ctx = l.strip()
-            for j in range(n + 1, min(n + 6, len(lines))):
-                s = lines[j].strip()
-                if s and not s.startswith('#[') and not s.startswith('//'):
-                    if not ctx.endswith(';') and ('fn ' in s or 'struct ' in s or 'trait ' in s or 'impl' in s or 'type ' in s):
+            if ctx.startswith('#['):
+                depth = 0
+                for j in range(n, min(n + 60, len(lines))):
+                    s = lines[j].strip()
+                    code = re.sub(r'//.*$', '', s)
+                    if depth == 0 and j > n and code and not code.startswith('#[') and re.search(r'\b(fn|struct|const|trait|impl|type|enum)\b', code):
                         ctx = ctx + ' ' + s
-                    break
+                        break
+                    if j >= n and code.startswith('#['):
+                        depth += code.count('(') - code.count(')')
+                    elif depth > 0:
+                        depth += code.count('(') - code.count(')')
             items.append('%s: %s' % (f, re.sub(r'\s+', ' ', ctx)[:200]))
     return items, counts
 
@@ -440,7 +446,9 @@ def main():
             prc = 0
             if not obl:
                 print('%s: no obligations are tagged with this property (not claimed)' % pid)
-                prc = 2
+                if len(pids) == 1:
+                    rc = 2
+                continue
             for oid, (k, descs) in sorted(known_hit.items()):
                 print('KNOWN-FINDING: property=%s obligation=%s %s' % (pid, oid, k['text']))
             for oid, descs in sorted(new.items()):
